@@ -213,7 +213,9 @@ HEADER = ("(* GENERATED on every run by vlib/translate.py from the current sourc
 #                             `x` is `p != 0`; any other use is Unsupported
 #            a 4th component "volatile" marks a read an effect may change: reading it after any effect that does
 #            not list it under `keeps` is Unsupported (stale observation); "needs:<Constructor>" marks a read that
-#            only makes sense after that effect happened on every path to it (`preempt.key` after the victim was picked)
+#            only makes sense after that effect happened on every path to it (`preempt.key` after the victim was picked);
+#            "stale_on:<field>" marks a read computed from a state field (`self.total_packets` from queue_count): reading
+#            it after an assignment to that field is Unsupported
 #   effects  [(python statement with holes _1 _2.., constructor, [hole types], keeps)]
 #                                  statement-level calls / stores whose value is unused, matched structurally; the
 #                                  constructor (applied to the translated holes) is appended to the effect list, so
@@ -230,8 +232,9 @@ HEADER = ("(* GENERATED on every run by vlib/translate.py from the current sourc
 #   bindings [(python statement, local, parameter, type)]
 #                                  a listed statement (a loop) that adds an outside value to a local already defined:
 #                                  local := local + parameter (`for i in self.active_set: weight_sum += self.weights[i]`)
-#   inline   [method names]        `self.m()` as a statement: the body of m (same class, no arguments, no return) is
-#                                  translated in place with the same tables; its locals do not leak
+#   inline   [name | (name, file, class)]   `self.m(a, ..)` as a statement: the body of m (same class, or the named base
+#                                  class; no return) is translated in place with the same tables; arguments must be
+#                                  plain names equal to m's parameter names; its locals do not leak
 #   `/` is Q division: a ZeroDivisionError is not modelled (x / 0 = 0 in Q); the bridges state the divisor non-zero.
 #   select   "loop_after_yield": the method is a process body `while True: yield <wait>; <statements>`; the statements
 #            run at each resumption are translated (anything else in the method: Unsupported)
@@ -373,7 +376,7 @@ class FxTr:
         for (pd, p, ty, flag) in self.reads:
             if pd == d:
                 if p in env["stale"]:
-                    raise Unsupported(f"observation {p} is read after an effect that may have changed it")
+                    raise Unsupported(f"observation {p} is read after an effect or assignment that may have changed it")
                 if flag.startswith("needs:") and flag[6:] not in env["done"]:
                     raise Unsupported(f"observation {p} is read on a path where {flag[6:]} has not happened")
                 return p, ty
@@ -615,6 +618,8 @@ class FxTr:
     def bind(self, key, v, env):
         """let-bind a new value of variable key; returns (let line, env')"""
         env2 = self.copy(env)
+        if key[0] == "self":                         # observations derived from this field are stale now
+            env2["stale"] |= {p for (_, p, _, flag) in self.spec.reads if flag == "stale_on:" + key[1]}
         if _atomic(v.term):                          # `x = y`: an alias, no let
             env2["vars"][key] = V(v.term, v.ty)
             return "", env2
@@ -645,8 +650,11 @@ class FxTr:
                 return line + self.block(rest, env2, k)
         if (isinstance(s, ast.Expr) and isinstance(s.value, ast.Call) and isinstance(s.value.func, ast.Attribute)
                 and isinstance(s.value.func.value, ast.Name) and s.value.func.value.id == "self"
-                and s.value.func.attr in self.spec.inline and not s.value.args and not s.value.keywords):
-            return self.inline_call(s.value.func.attr, rest, env, k)
+                and not s.value.keywords):
+            for ent in self.spec.inline:
+                ent = (ent, self.spec.path, self.spec.cls) if isinstance(ent, str) else tuple(ent)
+                if ent[0] == s.value.func.attr:
+                    return self.inline_call(ent, s.value.args, rest, env, k)
         env2 = self.effect(s, env)
         if env2 is not None:
             if isinstance(s, (ast.Return, ast.Raise)):   # a listed tail call (`return super()._do_put(event)`) or a
@@ -728,11 +736,19 @@ class FxTr:
             return self.do_if(s, rest, env, k)
         raise Unsupported(f"statement {type(s).__name__}")
 
-    def inline_call(self, name, rest, env, k):
-        """`self.<name>()` for a method listed under inline: its body is translated in place (own locals, no return)"""
-        f = find_method(self.spec.path, self.spec.cls, name)
-        if len(f.args.args) != 1 or f.args.vararg or f.args.kwarg or f.args.kwonlyargs or f.decorator_list:
+    def inline_call(self, ent, args, rest, env, k):
+        """`self.<name>(a, b)` for a method listed under inline (name, or (name, file, class) for a base class): its body
+        is translated in place with the same tables (own locals, no return); every argument must be a plain name equal
+        to the callee's parameter name, so that the observation tables read the same in both bodies"""
+        name, path, cls = ent
+        f = find_method(path, cls, name)
+        if f.args.vararg or f.args.kwarg or f.args.kwonlyargs or f.decorator_list or f.args.defaults:
             raise Unsupported(f"inlined method {name}: signature")
+        params = [a.arg for a in f.args.args][1:]
+        if len(args) != len(params) or any(not isinstance(a, ast.Name) or a.id != q for a, q in zip(args, params)):
+            raise Unsupported(f"inlined call of {name}: arguments must be the names {params}")
+        if any(("local", q) in env["vars"] for q in params):
+            raise Unsupported(f"inlined call of {name}: an argument is a local of the caller")
         if any(isinstance(n, (ast.Return, ast.Yield, ast.YieldFrom)) for n in ast.walk(f)):
             raise Unsupported(f"inlined method {name} contains return / yield")
         caller_ret = self.spec.ret
